@@ -26,11 +26,11 @@ except Exception:
     _DEFECT_PRESENT = False
 
 
-def mk(mid, path, old, new, expect, edits=None):
+def mk(mid, path, old, new, expect, edits=None, note=""):
     edits = list(edits or [])
     if _DEFECT_PRESENT:
-        return M(mid, EXP, BUG, FIX, expect, edits=[(path, old, new)] + edits)
-    return M(mid, path, old, new, expect, edits=edits)
+        return M(mid, EXP, BUG, FIX, expect, edits=[(path, old, new)] + edits, note=note)
+    return M(mid, path, old, new, expect, edits=edits, note=note)
 
 
 AGE_BLOCK = ("                age_limit = original_expiration_time - grant_renew_time\n"
